@@ -310,7 +310,7 @@ def run(ctx):
     rec = prog.records.get("ovni_stream_header")
     ctx.check(rec is not None and rec["size"] == 8, "R1.6", "stream-header:8-bytes", "include/ovni.h.in",
               "struct ovni_stream_header is %s bytes" % (rec and rec["size"]))
-    rt4 = RtExplorer(ctx, cap)
+    rt4 = RtExplorer(ctx, cap, loop_bound=8)
     st = rt4.base_store(evlen=INT(0))
     wh = prog.fn("write_stream_header", OV)
     outs = [o for o in rt4.ex.run(wh, [], st) if o.kind in ("ret", "exit")]
@@ -319,6 +319,15 @@ def run(ctx):
         magic = [ev[2] for ev in o.events if ev[0] == "note" and ev[1] == "memcpy"]
         good_magic = any(d["dest"][0] == "ptr" and d["dest"][1] == "EVBUF" and d["src"] == ("str", "ovni") and
                          d["n"] == INT(4) and _hdr_off(prog, d["dest"]) == 0 for d in magic)
+        if not good_magic:
+            # or stored byte by byte: the last store to each of the offsets 0..3
+            byte_at = {}
+            for ev in o.events:
+                if ev[0] == "store" and ev[1][0] == "EVBUF":
+                    off_ = _hdr_off(prog, ("ptr", "EVBUF", ev[1][1]))
+                    if off_ is not None:
+                        byte_at[off_] = ev[2]
+            good_magic = all(byte_at.get(k_) == INT(ord("ovni"[k_])) for k_ in range(4))
         ver = [ev for ev in o.events if ev[0] == "store" and ev[1][0] == "EVBUF" and
                ev[1][1] and ev[1][1][-1] == ("ovni_stream_header", "version")]
         good_ver = bool(ver) and ver[-1][2][0] == "int" and ver[-1][2][1] >= 1
